@@ -374,6 +374,17 @@ class Engine:
                 for x in v:
                     self.list_append(I, cur, x)
                 return cur
+            if isinstance(v, (SList, SListView)) and not cur.frozen:
+                j = z3.Int(fresh_name("jc"))
+                a, n = cur.arr, cur.length
+                # concatenation: a fresh array defined pointwise (friendlier to the solvers than a lambda term)
+                new = z3.Array(fresh_name(cur.name + "_cat"), z3.IntSort(), cur.kind.sort)
+                ctx.assume(z3.ForAll([j], z3.Implies(z3.And(j >= 0, j < n), z3.Select(new, j) == z3.Select(a, j))))
+                ctx.assume(z3.ForAll([j], z3.Implies(z3.And(j >= n, j < n + v.length), z3.Select(new, j) == unwrap(v.get(j - n)))))
+                cur.arr = new
+                cur.length = n + v.length
+                ctx.note_mut(cur)
+                return cur
             raise Unsupported("SList += symbolic")
         raise Unsupported("in-place op on container")
 
@@ -523,6 +534,13 @@ class Engine:
                     return out
             if hasattr(v, "pyvc_list"):
                 return v.pyvc_list(I)
+            if isinstance(v, SSet):
+                # a duplicate-free enumeration of the set (every member occurs: ghost position function)
+                n, get = self.symbolic_iter(I, v)
+                seq = I.ctx.ghost["__set_enum__"][id(v)]
+                out = stamp(SList(v.kind, arr=seq.arr, length=seq.length, name=v.name + "_list"))
+                out.enum_of = v
+                return out
             raise Unsupported("list() of symbolic iterable")
         if fn is tuple:
             return tuple(args[0]) if args else ()
@@ -749,6 +767,7 @@ class Engine:
             m = z3.Const(fresh_name("m"), it.kind.sort)
             I.ctx.assume(z3.ForAll([m], z3.Implies(z3.Select(it.member, m), z3.And(posf(m) >= 0, posf(m) < seq.length, z3.Select(seq.arr, posf(m)) == m))))
             I.ctx.ghost.setdefault("__set_enum__", {})[id(it)] = seq
+            I.ctx.ghost.setdefault("__set_pos__", {})[id(it)] = posf
             return seq.length, seq.get
         raise Unsupported(f"iteration over {it!r}")
 
@@ -934,12 +953,13 @@ class Engine:
             variant0 = spec.decreases(ctx, env, it) if spec.decreases else None
             ctx.track_mut, ctx.mutated, ctx.mut_objs = True, set(), {}
             broke = False
+            continued = False
             try:
                 if kind == "for":
                     I.assign_target(s.target, getter(it.k), fr)
                 I.exec_block(s.body, fr)
             except ContinueSignal:
-                pass
+                continued = True
             except BreakSignal:
                 broke = True
             finally:
@@ -955,7 +975,7 @@ class Engine:
                 if a in heap_before and heap_before[a] is not arr and ("heap:" + a) not in spec.modifies:
                     raise Unsupported(f"{tag}: body writes heap field {a} not listed in modifies")
             if spec.ghost_step:
-                spec.ghost_step(ctx, env, it, broke)   # ghost update (witness for existential clauses); may not touch program state
+                spec.ghost_step(ctx, env, it, "continue" if continued else broke)   # ghost update (witness for existential clauses); may not touch program state
             if broke:
                 return
             if kind == "for":
